@@ -208,7 +208,7 @@ def completion_point(f, name):
             if t["t"] != "switch":
                 continue
             v = f.tr.value(t["d"])
-            if v.kind != "rv" or v.rv["r"] != "discr" or not ty_str(v.rv["of"]).startswith("core::option::Option<core::result::Result<"):
+            if v.kind != "rv" or v.rv["r"] != "discr" or not ty_str(v.rv["of"]).startswith("core::option::Option<"):      # (Option<Result<R>>; Option<R> behind `filter_map(Result::ok)`)
                 continue
             e = f.ex.operand(t["d"])
             if any(x[0] == "call" and x[1] == NEXT for x in walk(e)):
